@@ -138,6 +138,11 @@ class T4App(object):
         return self.files[self.fid]
 
     @staticmethod
+    def echo_response(serial, n):
+        return struct.pack(">H", serial & 0xFFFF) + bytes(
+            (serial * 7 + i) & 0xFF for i in range(n)) + b"\x90\x00"
+
+    @staticmethod
     def parse(apdu):
         """short APDU -> (cla, ins, p1, p2, data, le) le None when absent"""
         cla, ins, p1, p2 = apdu[:4]
@@ -161,16 +166,14 @@ class T4App(object):
         self.execlog.append((self.serial, apdu))
         if len(apdu) < 4:
             return b"\x67\x00"
+        if apdu[1] == 0xEE:
+            # test-only echo (any command length): the response identifies
+            # this very execution
+            return self.echo_response(self.serial, (apdu[2] << 8) | apdu[3])
         p = self.parse(apdu)
         if p is None:
             return b"\x67\x00"
         cla, ins, p1, p2, data, le = p
-        if ins == 0xEE:
-            # test-only echo: response identifies this very execution
-            n = (p1 << 8) | p2
-            body = struct.pack(">H", self.serial) + bytes(
-                (self.serial + i) & 0xFF for i in range(n))
-            return body + b"\x90\x00"
         if ins == 0xA4 and p1 == 0x04:
             want = AID_V1 if self.ver >> 4 == 1 else AID_V2
             if data == want:
